@@ -170,3 +170,88 @@ func c14HookCombo(rep *Report, rc, lc int, api string) {
 		rep.addViolation("property", key+":enumerated", fmt.Sprintf("after the link ended %d remote(s) are still enumerated", left), desc)
 	}
 }
+
+// c14InheritedIDLink: a second link of the same registry is established with a context that CARRIES the identifier of
+// the first, live link (a hub handler that opens a sub-link scoped to its own context). The second link is announced
+// under a fresh identifier, both links are enumerated, and ending either leaves the other enumerated.
+func c14InheritedIDLink(rep *Report) {
+	for _, api := range apis() {
+		rep.Evaluations++
+		rep.Distinct++
+		desc := map[string]any{"suite": "C14-inherited-identifier", "api": api}
+		var mu sync.Mutex
+		var connects, disconnects []string
+		reg := rpc.NewRegistry[rpRemote, json.RawMessage](rpLocal{}, &rpc.RegistryHooks{
+			OnClientConnect:    func(id string) { mu.Lock(); connects = append(connects, id); mu.Unlock() },
+			OnClientDisconnect: func(id string) { mu.Lock(); disconnects = append(disconnects, id); mu.Unlock() },
+		})
+		mar := func(v any) (json.RawMessage, error) { b, err := json.Marshal(v); return b, err }
+		unm := func(data json.RawMessage, v any) error { return json.Unmarshal([]byte(data), v) }
+		start := func(ctx context.Context) (*Queue, chan error) {
+			q := NewQueue()
+			done := make(chan error, 1)
+			go func() {
+				if api == "message" {
+					done <- reg.LinkMessage(ctx,
+						func(b json.RawMessage) error { return nil }, func(b json.RawMessage) error { return nil },
+						func() (json.RawMessage, error) { b, e := q.Get(); return b, e }, func() (json.RawMessage, error) { b, e := q.Get(); return b, e },
+						mar, unm, nil)
+				} else {
+					done <- reg.LinkStream(ctx,
+						func(m rpc.Message[json.RawMessage]) error { return nil },
+						func(m *rpc.Message[json.RawMessage]) error { _, e := q.Get(); return e },
+						mar, unm, nil)
+				}
+			}()
+			return q, done
+		}
+		enumerated := func() []string {
+			var ids []string
+			reg.ForRemotes(func(id string, r rpRemote) error { ids = append(ids, id); return nil })
+			return ids
+		}
+		ctx1, cancel1 := context.WithCancel(context.Background())
+		q1, done1 := start(ctx1)
+		waitFor(func() bool { return len(enumerated()) == 1 })
+		ids := enumerated()
+		if len(ids) != 1 {
+			rep.addViolation("property", "C14:inherited-id:setup", "the first link did not come up", desc)
+			cancel1()
+			q1.Close(errors.New("closed"))
+			continue
+		}
+		first := ids[0]
+		ctx2, cancel2 := context.WithCancel(context.WithValue(context.Background(), rpc.RemoteIDContextKey, first))
+		q2, done2 := start(ctx2)
+		waitFor(func() bool { mu.Lock(); defer mu.Unlock(); return len(connects) == 2 })
+		mu.Lock()
+		cs := append([]string{}, connects...)
+		mu.Unlock()
+		if len(cs) != 2 {
+			rep.addViolation("property", "C14:inherited-id:connect", fmt.Sprintf("a second link (context derived from a handler context of the first) produced %d connect notifications in total", len(cs)), desc)
+		} else if cs[1] == first {
+			rep.addViolation("property", "C14:inherited-id:not-fresh", "a second link whose context carries the first, live link's identifier was announced under that SAME identifier: not a fresh one", desc)
+		}
+		if n := len(enumerated()); n != 2 {
+			rep.addViolation("property", "C14:inherited-id:enumeration", fmt.Sprintf("two links announced as connected and none as disconnected, %d enumerated", n), desc)
+		}
+		// the second link ends: the first one stays enumerated
+		cancel2()
+		q2.Close(errors.New("closed"))
+		select {
+		case <-done2:
+		case <-time.After(watchdog):
+		}
+		waitFor(func() bool { mu.Lock(); defer mu.Unlock(); return len(disconnects) >= 1 })
+		left := enumerated()
+		if len(left) != 1 || left[0] != first {
+			rep.addViolation("property", "C14:inherited-id:after-teardown", fmt.Sprintf("the second link ended; the first one is still connected, enumerated: %d remote(s)", len(left)), desc)
+		}
+		cancel1()
+		q1.Close(errors.New("closed"))
+		select {
+		case <-done1:
+		case <-time.After(watchdog):
+		}
+	}
+}
